@@ -55,6 +55,9 @@ type c04Case struct {
 	Src  string   `json:"src"` // printed form (informational; recomputed by the judge)
 	// StructCtx: the context is a pointer to a struct with one field per variable (addressable storage) instead of a map
 	StructCtx bool `json:"struct_ctx,omitempty"`
+	// Wrapped: the VarMap entries are what reflect hands out for the entries of a map[string]interface{} (values of
+	// kind Interface), put into the VarMap as they are
+	Wrapped bool `json:"wrapped,omitempty"`
 }
 
 // values of basic kinds whose types have a String method: concatenated (and printed) through that method
@@ -305,6 +308,8 @@ func (g *c04Gen) boolean(d int) *c04Expr {
 	case 9:
 		e := &c04Expr{Op: "not", A: g.cond(d - 1)}
 		e.Word = g.n(0, 3, "wordnot") == 0
+		// "!a == b" is "!(a == b)": the operand of a negation reaches as far as a comparison does
+		e.Tight = g.n(0, 1, "notOverComparison") == 0
 		return e
 	default:
 		return g.style(&c04Expr{Op: "tern", A: g.cond(d - 1), B: g.maybeProbe(g.boolean(d - 1)), C: g.maybeProbe(g.boolean(d - 1))})
@@ -324,7 +329,7 @@ func genC04(t *rapid.T) c04Case {
 	default:
 		e = g.num(d)
 	}
-	c := c04Case{Expr: e, Vars: g.vars, StructCtx: rapid.IntRange(0, 2).Draw(t, "structContext") == 0}
+	c := c04Case{Expr: e, Vars: g.vars, StructCtx: rapid.IntRange(0, 2).Draw(t, "structContext") == 0, Wrapped: rapid.IntRange(0, 3).Draw(t, "wrappedVars") == 0}
 	c.Src, _ = c04Print(c.Expr)
 	return c
 }
@@ -447,6 +452,10 @@ func c04raw(e *c04Expr, sh *c04Shape) string {
 		op := "!"
 		if e.Word {
 			op = "not "
+		}
+		if e.Tight {
+			sh.child(e, e.A, lvEq)
+			return op + c04p(e.A, lvEq, sh)
 		}
 		return op + c04p(e.A, lvPrimary, sh)
 	case "tern":
@@ -843,6 +852,10 @@ func judgeC04(c c04Case) (v core.Verdict) {
 	data := map[string]interface{}{}
 	for i, vr := range c.Vars {
 		vars.Set(fmt.Sprintf("v%d", i), vr.goValue())
+		if c.Wrapped {
+			name := fmt.Sprintf("v%d", i)
+			vars[name] = reflect.ValueOf(map[string]interface{}{name: vr.goValue()}).MapIndex(reflect.ValueOf(name))
+		}
 		data[fmt.Sprintf("V%d", i)] = vr.goValue()
 	}
 	vars.SetFunc("p", func(a jet.Arguments) reflect.Value {
@@ -905,7 +918,7 @@ func judgeC04(c c04Case) (v core.Verdict) {
 
 func TestC04(t *testing.T) {
 	core.Run(t, "C04",
-		"typed expression trees (depth<=5) over numeric (also character constants)/string/bool literals and Execute variables of every Go int/uint/float kind plus string and bool, unsigned values beyond MaxInt64 on the right of floating-point operands, the same operand on both sides of == / != (also a NaN), context as a map or as a pointer to a struct; minimal + random redundant parentheses; every operator spaced on both sides or neither; && || ?: operands wrapped in logging probes; non-trivial = >=2 operators with two different precedence levels adjacent without parentheses or a no-space operator, or a probe inside a branch the lazy operators must skip; shapes whose meaning the statement leaves open are discarded and counted",
+		"typed expression trees (depth<=5) over numeric (also character constants)/string/bool literals and Execute variables of every Go int/uint/float kind plus string and bool, unsigned values beyond MaxInt64 on the right of floating-point operands, the same operand on both sides of == / != (also a NaN), context as a map or as a pointer to a struct; minimal + random redundant parentheses; every operator spaced on both sides or neither; && || ?: operands wrapped in logging probes; also: a negation written in front of an unparenthesised comparison (!a == b is !(a == b)); a quarter of the cases with VarMap entries of kind Interface (what reflect hands out for the entries of a map[string]interface{}); non-trivial = >=2 operators with two different precedence levels adjacent without parentheses or a no-space operator, or a probe inside a branch the lazy operators must skip; shapes whose meaning the statement leaves open are discarded and counted",
 		genC04, judgeC04)
 }
 
